@@ -100,7 +100,10 @@ def check_archive(fname, data, doc, directory, ext, v, case_d):
                     v.append((sig("html-differs-from-plain-html"), "text.html differs from html -f beyond asset paths and the TOC", dict(case_d, got=h.decode("utf-8", "replace")[-600:], plain=plain.decode("utf-8", "replace")[-600:])))
                 n_html = len(re.findall(rb'<img src="assets/', h)); n_md = len(re.findall(rb'!\[[^\]]*\]\(assets/', md)) + sum(1 for _ in re.finditer(rb'^\[[^\]]*\]: assets/', md, re.M))
                 n_img_refdefs = len(re.findall(rb'!\[[^\]]*\]\[', md))
-                if n_html and n_md == 0 and not n_img_refdefs:
+                left = re.findall(rb'!\[[^\]]*\]\((?!assets/)((?:i|f)\.png)( "[^"]*")?\)', md)       # local images that exist but were not re-pathed
+                if directory and any(not t for _, t in left):
+                    v.append((sig("text-keeps-original-image-path-of-untitled-image"), "text.markdown still uses the original path of an image that was stored as an asset: %r" % md, case_d))
+                elif n_html and n_md == 0 and not n_img_refdefs:
                     v.append((sig("text-keeps-original-image-path"), "text.html references assets/ but text.markdown still uses the original image path: %r" % md, case_d))
     elif fname == "itmz":
         if need("mapdata.xml"):
